@@ -8,7 +8,7 @@ import sys
 import traceback
 
 from mc import env  # noqa: F401  (must come first: sys.path, guard, backend)
-from mc.ctx import Ctx, HarnessError
+from mc.ctx import Ctx, FailFast, HarnessError
 
 
 def default_run_shard(mod, ctx):
@@ -32,6 +32,8 @@ def main(argv):
             mod.run_shard(ctx)
         else:
             default_run_shard(mod, ctx)
+    except FailFast:
+        pass
     except HarnessError as e:
         status = {"ok": False, "error": "HarnessError: %s" % e}
     except Exception as e:  # noqa: BLE001
